@@ -8,8 +8,15 @@ QUICK = [
                     "buslost=1", "win=03", "longtoany=1"]),
     ("restart", ["req=2:3115b5090100:2", "submit=1", "qq=", "nn=0", "snn=0", "echofaults=0", "win=03", "buslost=1", "longtoany=1"]),
 ]
-THOROUGH = QUICK
+THOROUGH = QUICK + [
+    ("three-requests", ["req=0:3115b5090100", "req=1:31feb50900", "req=2:3103b50900:1", "submit=1", "qq=", "nn=0", "snn=0", "echofaults=0",
+                        "readerr=1", "buslost=1", "win=03", "longtoany=1", "lateecho=1", "maxnodes=1500000"]),
+    ("reconnect-openfail", ["req=0:3115b5090100", "req=1:31feb50900", "submit=1", "qq=", "nn=0", "snn=0", "echofaults=0", "readerr=1",
+                            "openfail=1", "reconnect=1", "win=03", "longtoany=1"]),
+]
 
 
 def run(ctx):
-    pc.run_configs(ctx, "C04", "q", THOROUGH if ctx.thorough else QUICK)
+    n = 400000 if ctx.thorough else 40000
+    rnd = [("rnd-plain", n, ["req=0:3115b50900", "req=1:3115b50900", "req=2:3115b50900:2", "buslost=1", "readerr=1"])]
+    pc.run_configs(ctx, "C04", "q", THOROUGH if ctx.thorough else QUICK, random_runs=rnd)
